@@ -43,7 +43,7 @@ CMPS = ["<", "<=", ">", ">=", "==", "!="]
 
 def plan(tier, seed):
     sh = [{"kind": "exh", "k": k, "n": 8} for k in range(8)]
-    per = 800 if tier == "quick" else 20000
+    per = 1500 if tier == "quick" else 20000
     sh += [{"kind": "rand", "seed": f"C19:{seed}:{k}", "count": per} for k in range(16)]
     sh.append({"kind": "names"})
     return sh
